@@ -865,13 +865,8 @@ static void on_alarm(int sig) {
   const char *m = "\n{\"op\":\"timeout\"}\n"; ssize_t r = write(1, m, strlen(m)); (void)r; _exit(3);
 }
 
-int main(int argc, char **argv) {
-  (void)argc; (void)argv;
-  static char obuf[1 << 16];
-  setvbuf(stdout, obuf, _IOLBF, sizeof obuf);
-  signal(SIGALRM, on_alarm);
-  main_ctx.out = stdout; main_ctx.cookie = 0x5eed;
-  if (getenv("DRV_ROOT")) { drv_root = getenv("DRV_ROOT"); mkdirs(drv_root); }
+static void *interp(void *unused) {
+  (void)unused;
   char *line = NULL; size_t cap = 0; ssize_t n;
   while ((n = getline(&line, &cap, stdin)) > 0) {
     if (line[n - 1] == '\n') line[n - 1] = 0;
@@ -881,5 +876,25 @@ int main(int argc, char **argv) {
     if (run_cmd(&main_ctx, t, nt)) break;
   }
   free(line); free(watch_case); cb_reset(&main_ctx);
+  return NULL;
+}
+
+int main(int argc, char **argv) {
+  (void)argc; (void)argv;
+  static char obuf[1 << 16];
+  setvbuf(stdout, obuf, _IOLBF, sizeof obuf);
+  signal(SIGALRM, on_alarm);
+  main_ctx.out = stdout; main_ctx.cookie = 0x5eed;
+  if (getenv("DRV_ROOT")) { drv_root = getenv("DRV_ROOT"); mkdirs(drv_root); }
+  if (getenv("DRV_STACK_KB")) {
+    /* the whole script is interpreted by a thread with a SMALL stack: what the library puts on the stack must not grow with the
+       length of its input (a daemon's worker threads have stacks of a few hundred KiB) */
+    pthread_attr_t at; pthread_t th; pthread_attr_init(&at);
+    pthread_attr_setstacksize(&at, (size_t)atol(getenv("DRV_STACK_KB")) * 1024);
+    if (pthread_create(&th, &at, interp, NULL)) { perror("pthread_create"); return 3; }
+    pthread_join(th, NULL);
+    return 0;
+  }
+  interp(NULL);
   return 0;
 }
